@@ -127,11 +127,15 @@ class ScriptedControl:
         return self.jnp.asarray(0)
 
     def apply(self, dt, k, *, error_power):
+        # an admissible controller shrinks after a rejection (C06 takes that as the controller's contract): the scripted factors are
+        # used for proposals after accepted attempts only; after a rejection the factor is default_reject < 1
         kk = int(k)
-        if kk < len(self.factors):
+        if float(error_power) < 1.0:
+            fac = self.dr
+        elif kk < len(self.factors):
             fac = self.factors[kk]
         else:
-            fac = self.da if float(error_power) >= 1.0 else self.dr
+            fac = self.da
         return fac * dt, k + 1
 
 
